@@ -30,7 +30,7 @@ CLAIMED = {
              "classes occur; the header-difference classification across commits accepts exactly the legal header transitions "
              "(Properties/C17Step: sound and complete w.r.t. Spec.HeaderStep, which is run on consecutive headers of SQLite-written "
              "histories); the WAL-index (-shm) header (Properties/C17WalIndex): every field of both copies is the value at its wal.c offset in the file's byte order, accepted iff 136 bytes with version 3007000 in both copies, error class determined. "
-             "The b-tree page header classes and the WAL-index header classes are regenerated from the Python source on every run and proved equal to the model for every buffer (Properties/GenPage), like the four file-header classes (GenHeader). "
+             "The b-tree page header classes and the WAL-index header classes are regenerated from the Python source on every run and proved equal to the model for every buffer (Properties/GenPage), like the four file-header classes (GenHeader); _parse_database_header_differences and compare_database_headers are regenerated as well and proved equal to the model's classification for every previous header, every accepted new header, committed size and schema flag (Properties/GenHdrDiff, translator hdrdiff.py). "
              "Tied by correspondence over field perturbations (every value of the 1- and 2-byte fields), per-commit "
              "PRAGMA values of WAL histories (with and without store_in_memory, several schema changes per commit) and SQLite-written -shm headers.",
         design="§9 C17", note=NOTE + "reserved-bytes-per-page != 0 is refused by the tool although SQLite allows it (stated assumption).", technique=T),
@@ -91,7 +91,7 @@ CLAIMED = {
         design="§9 C08", note=NOTE + "partial: 'inside free space of a page of that table, never inside a live cell' by oracle (independent page reader) only; sizes < 2^53; Python re validated, not verified.", technique=T),
     "C09": dict(
         text="Theorems (Properties/C09): recall of an intact record at record and region level without assuming that carving completed (recall_region_total), first-match scan lemma, a generated pattern's match is exactly the serial-type header (self-delimiting varints), first column recovered from the freeblock size or a single possible type, digests separate rows at different places; recall through the iterator's digest dictionary holds for pairwise distinct digests and is refuted in general by Lean witnesses (identical bytes; the one-column collision C09-05). Tied by carving correspondence; deletion grid over page size x column shape x position x residue location (freeblock, unallocated, freelist page, WAL frames, journals incl. pages cut off the end of the file) with an independent before/after byte reader.",
-        design="§9 C09", note=NOTE + 'partial: recall through the freeblock/partial pattern at region level is decided by the grid, not by a theorem; open findings C09-02/03/05.', technique=T),
+        design="§9 C09", note=NOTE + 'region-level recall through the freeblock / partial pattern is a theorem now (Properties/C09Freeblock: recall_freeblock_record / _total / _candidate, scan_reports_freeblock_header, under FreedCell and FirstColumnRecoverable); partial: cells with two-byte serial types or header sizes, overflowing cells, coalesced freeblocks, single-column tables and the iterator / de-duplication level are decided by the grid; open findings C09-02/03/05/06/07.', technique=T),
     "C06": dict(
         text="Theorems on the page-layout check (Properties/C06: stable sort, telescoping identity, every SQLite-well-formed layout accepted with fragment total = header count, accepted layouts tile [content offset, page end) without overlap or gap, strict checking irrelevant on accepted pages, freeblock walk bounded and ascending) and the page round trip (Properties/C01Tree: a page laid out as Spec.PageLaidOut — header, pointer array, cells with SQLite's 4-byte minimum allocation, freeblock chain, <= 60 fragment bytes — is parsed to exactly its cells and freeblocks). Spec.PageLaidOut is run (executable form, proved equivalent) on the pages SQLite wrote. Page census tied by full-dump correspondence and SQLite's dbstat / page_count / freelist_count / integrity_check, per version for WAL histories. BTreePageHeader / LeafPageHeader / InteriorPageHeader and the body of OverflowPage.__init__ are regenerated from the Python source on every run and proved equal to the model parsers for every page (Properties/GenPage).",
         design="§9 C06", note=NOTE + 'census (Properties/C06Census): an accepted census has exactly the keys 1..N, the class of each page is that of the last source listing it, and under pairwise disjoint sources (what SQLite guarantees; measured against dbstat) every page is listed exactly once with the class of that source; the two checks of the code alone do NOT detect a page listed twice when all of 1..N are covered (census_accepts_iff_pages_covered, machine-checked witness) - relevant to damaged files only.', technique=T),
